@@ -30,6 +30,12 @@ CLAIMS.update({
     text="Theorems C14_result / activate_fire (an executed transition returns unwrap(applicable before results ++ applicable on results), nothing else contributes), unwrap_cases (None / the value / the list), mem_applicable (event-scoped callbacks filtered by the triggering event), C14_rejected_none, drainLoop_single (the outermost call returns it). Correspondence over 0-3 before x 0-3 on callbacks in all styles/providers with a pool of None/falsy/container return values, internal/self/multi-event transitions, both engines; return values of every callback are compared.",
     design="7 C14"),
 })
+CLAIMS.update({
+  "C09": dict(
+    technique="Lean 4 proof over an executable model (BFS soundness/completeness with pigeonhole fuel bound; check chain <-> declarative WellFormed) + exhaustive small-scope correspondence with an independent graph oracle",
+    text="Proved in Lean for every class definition (any number of states, any transition multiset incl. self-loops, parallel edges, internal flags, from_.any(), loose transitions, strict on/off): the model of the metaclass checks accepts a non-abstract definition iff it is well formed (WellFormed written from the statement, reachability as an inductive closure; the worklist BFS is proved sound and complete), and under strict_states rejects exactly when a trap / no-path-to-final state exists, otherwise warns naming exactly those states. Tied to the code by exhaustive differential execution against the real metaclass and an independent Warshall oracle: all definitions with <=3 states/<=3 transitions every run (105k classes), <=4/<=4 in the thorough tier (6.5M), plus sampled 5-9 states.",
+    design="7 C09"),
+})
 NOT_APPLICABLE = {}
 
 def main():
